@@ -7,7 +7,8 @@ CFG = {
     "rule": "scripted readers through ansi.NewParser: end of input or read error at every byte offset of 46 corpus streams and of "
             "generated streams (three chunkings), Close() issued while blocked in a read at every chunk boundary, four consumers "
             "(Finish at once / retain everything / Finish 1..5 items late) with deep copies compared to the retained originals, "
-            "Escape-timer scripts with 40 ms pauses after a lone ESC and back-to-back reads otherwise (incl. a C0 control executed in the escape state before the pause); "
+            "Escape-timer scripts with silence after a lone ESC (the reader waits for the callback's report at a yield point - no sleep; a report later than 60 ms on four tries is a failure time-out) and back-to-back reads otherwise "
+            "(incl. a C0 control executed in the escape state before the pause); "
             "the same timing shapes with a slow consumer (25 ms before every receive: emit blocks, a timer callback blocks in emit holding the mutex); "
             "hook-held timer callbacks released before / inside / after the following bytes; distinct by (consumer, script). "
             "Stream C08Sched (round 4): schedules enumerated by the Lean model from the statement-grained LTS - every interleaving of the statements of run(), the reader's returns, Close() and timer expiries "
@@ -25,7 +26,7 @@ CFG = {
                      "the rearrangement of whole schedules by these swaps is not a theorem; "
                      "the scheduler cannot park between ReadRune's return and the Stop() in readRune nor between a failed check and the deferred Unlock (no yield point)"],
     "assumptions": ["the consumer keeps receiving (emit blocks otherwise, by design: consumer_stops_blocks; with a receiving consumer every finite input terminates: finite_input_terminates on the atomic layer, fchan_fair_run_terminates at statement grain)", "each delivered sequence is passed to Finish at most once",
-                    "40 ms >> 10 ms >> back-to-back reads on the test machine (prompt cases with surplus Escape reports are re-run)"],
+                    "back-to-back reads of the scripted reader are less than 10 ms apart on the test machine (prompt cases with surplus Escape reports are re-run); no other elapsed time enters a verdict"],
     "level_text": "Proved for every schedule of reads, end of input, Close(), timer firings and late timer callbacks: exactly one EOF, last, then the channel is closed, "
                   "nothing emitted afterwards; no panic; end of input / Close+read return stop the loop; no deadlock; number of Escape reports = number of (up-to-date) "
                   "timer firings; lone ESC => one C0 1B then ground; prompt ESC => none; a late callback is the Escape key or a no-op. "
